@@ -148,6 +148,14 @@ def oracle(c, out):
             bad = _check_update_equiv(c, i, op[2])
             if bad:
                 fails.append((site + (":refit-update-differs-from-fresh-fit" if op[2] else ":no-refit-update-changed-forecast"), bad))
+        # (c'') statsmodels-backed forecasters keep the fitted model when parameter updating is disabled: forecasts "from the
+        #       new cutoff" are then that model carried on to the new time points -- what was forecast for step k+h before k
+        #       new observations arrived is what is forecast for step h afterwards
+        if k == "upd" and r[0] == "ok" and op[1] and in_order and opq and prev[0] and not op[2] \
+                and c["core"].split(":")[-1] in ADAPTERS and prev[1] is not None and st[1] is not None and st[1] > prev[1]:
+            bad = _check_adapter_carries_on(c, i, st[1] - prev[1])
+            if bad:
+                fails.append((site + ":no-refit-update-forecast-not-from-new-cutoff", bad))
         # (c') ... for every forecaster: with parameter updating disabled the learned parameters (public attributes
         #      ending in "_" of the forecaster and of every component) are those of the last fit
         if k == "upd" and r[0] == "ok" and op[1] and in_order and opq and prev[0] and not op[2]:
@@ -156,6 +164,25 @@ def oracle(c, out):
                 fails.append((site + ":no-refit-update-changed-parameters", bad))
         prev = st
     return fails
+
+
+ADAPTERS = {"expsmooth", "expsmooth_trend", "expsmooth_damped"}
+
+
+def _check_adapter_carries_on(c, i, k):
+    ops = c["ops"]
+    steps = [1, 2, 4]
+    a_outs, _ = _real_values(_twin(c, ops[:i] + [["pred", ["r", [k + s_ for s_ in steps]]]]))
+    b_outs, _ = _real_values(_twin(c, ops[:i + 1] + [["pred", ["r", steps]]]))
+    a, b = a_outs[-1], b_outs[-1]
+    if isinstance(a, str) or isinstance(b, str):
+        return None if isinstance(a, str) else "before the update the forecast for steps %r was made, afterwards steps %r raise %s" % ([k + s_ for s_ in steps], steps, b)
+    if list(a.index) != list(b.index):
+        return "time points %r before, %r after the update" % ([int(x) for x in a.index], [int(x) for x in b.index])
+    if not np.allclose(a.to_numpy(dtype=float), b.to_numpy(dtype=float), rtol=1e-7, atol=1e-9, equal_nan=True):
+        return "update(update_params=False) with %d new observations: the forecasts for the same time points %r changed from %r to %r although nothing was re-estimated" % (
+            k, [int(x) for x in a.index], [round(float(v), 6) for v in a], [round(float(v), 6) for v in b])
+    return None
 
 
 def _learned(f, path="", out=None, seen=None, depth=0):
